@@ -55,6 +55,12 @@ Inductive case :=
 | CLz4Enc (data : bytes) (raw : option bytes) (out : option bytes)
 | CLz4Dec (data : bytes) (raw : option bytes) (out : option bytes)
 | CLz4Bound (n b : Z)
+| CLz4Corrupt (data : bytes) (out : option bytes)        (* LZ4Compressor.Decode on a corrupted real body: an error, or
+                                                            exactly what the LZ4 format (Spec.v) says the bytes mean *)
+| CLz4Invalid (data : bytes)                              (* a body the harness claims the LZ4 format rejects (known finding
+                                                            lz4-offset-zero-accepted): the format decoder must reject it *)
+| CSnappyLen (src : bytes) (out : option Z)              (* snappy.DecodedLen *)
+| CSnappyDec (data : bytes) (lib : option bytes) (out : option bytes)   (* SnappyCompressor.Decode; lib = snappy.Decode directly *)
 | CLz4Block (blk : bytes) (n : Z) (out : option bytes)   (* the library's UncompressBlock on a block its compressor made,
                                                             against the block decoder of Spec.v (the LZ4 format) *)
 | CName (which : Z) (name : list Z).
@@ -141,6 +147,15 @@ Definition check (c : case) : bool :=
   | CLz4Enc data raw out => opt_eqb zlist_eqb (lz4_encode (fun _ => raw) data) out
   | CLz4Dec data raw out => opt_eqb zlist_eqb (lz4_decode (fun _ _ => raw) data) out
   | CLz4Bound n b => lz4_bound n =? b
+  | CLz4Corrupt data out =>
+      match out with
+      | None => true
+      | Some o => opt_eqb zlist_eqb (lz4_decode lz4_block_decode_into data) (Some o)
+      end
+  | CLz4Invalid data =>
+      match lz4_block_decode (skipn 4 data) with None => true | Some _ => false end
+  | CSnappyLen src out => opt_eqb Z.eqb (snappy_decoded_len src) out
+  | CSnappyDec data lib out => opt_eqb zlist_eqb (c_dec (snappy_codec (fun _ => None) (fun _ => lib)) data) out
   | CLz4Block blk n out => opt_eqb zlist_eqb (lz4_block_decode_into blk n) out
   | CName which name =>
       zlist_eqb (if which =? 0 then name_snappy else if which =? 1 then name_lz4 else key_COMPRESSION) name
